@@ -719,9 +719,15 @@ def sample_shape_rule(ctx):
     return res
 
 
+def _ld_state(ctx):
+    from .ld_rules import ld_state_rule
+
+    return ld_state_rule(ctx)
+
+
 register(
     "C03",
-    [cov_assemble_rule, base_terms_rule],
+    [cov_assemble_rule, base_terms_rule, _ld_state],
     "COV-ASSEMBLE: path-wise symbolic expansion of Flow._log_prob; on every returning path the result's signed-sum normal form "
     "must be exactly +self._distribution.log_prob(noise[, context]) + logabsdet with noise and logabsdet the two components of "
     "one forward call of self._transform on the inputs and the same embedded context at both calls (spelling-independent: "
